@@ -21,7 +21,7 @@ func init() {
 				"Set's error. (C18.once) YieldBlock executes the block's list exactly once on every normal path, brackets it with a context save/restore when a context is given, and reaches an error " +
 				"panic for an unknown block. (C18.top) LetGlobal walks to the outermost scope of the chain; Let/LetGlobal must not store into a nil map (the bottom scope's map is the " +
 				"caller's VarMap, which may be nil). (C18.args) ParseInto iterates 0 ≤ i < NumOfArguments() through Get(i) and fails when fewer pointers than arguments are supplied; " +
-				"RequireNumOfArguments compares NumOfArguments() with both bounds; Get/IsSet/NumOfArguments agree with evaluateArgs on positions (C14.shift, C14.slot, re-checked here). (C18.top, continued) LetGlobal's store happens where the scope's parent is known to be nil, on every path.",
+				"RequireNumOfArguments compares NumOfArguments() with both bounds; Get/IsSet/NumOfArguments agree with evaluateArgs on positions (C14.shift, C14.slot, re-checked here). (C18.top, continued) LetGlobal's store happens where the scope's parent is known to be nil, on every path. (C18.once, continued) YieldBlock runs the block without the given context only where that context is nil.",
 			NotDecided:  "equivalence of rendered output between API and syntax for all call histories; ParseInto's per-type conversions.",
 			Assumptions: []string{"custom functions call the API from the goroutine executing the template"},
 			Trusted:     commonTrusted,
@@ -196,7 +196,21 @@ func runC18(c *an.Ctx) {
 	// ---------------------------------------------------------------- C18.once
 	if f := c.Fn("C18.once", "(*Runtime).YieldBlock"); f != nil {
 		finfo := f.Info()
-		x := p.NewExplorer(f, an.Hooks{Call: func(x *an.Explorer, call *ast.CallExpr, st *an.State) {
+		// the context parameter (interface{}): the block runs without it only where it is nil — any other test
+		// (a nil pointer or nil slice inside the interface is a context like any other for {{yield b() ctx}})
+		ctxParam := ""
+		if f.Sig != nil && f.Sig.Params().Len() == 2 {
+			ctxParam = an.RoleOf(f.Sig.Params().At(1))
+		}
+		notGiven := token.NoPos
+		x := p.NewExplorer(f, an.Hooks{PreAssign: func(x *an.Explorer, lhs, rhs ast.Expr, stmt ast.Node, st *an.State) {
+			if p.FieldKey(finfo, lhs) == "Runtime.context" {
+				st.Set("ctxset", "1")
+			}
+		}, Call: func(x *an.Explorer, call *ast.CallExpr, st *an.State) {
+			if an.IsCallTo(finfo, call, execList) && st.Get("ctxset") == "" && ctxParam != "" && !an.FactIs(st, ctxParam+" == nil", true) && !notGiven.IsValid() {
+				notGiven = call.Pos()
+			}
 			if an.IsCallTo(finfo, call, execList) && st.Int("ran") < 3 {
 				st.Add("ran", 1)
 				if !strings.HasSuffix(an.Str(call.Args[0]), ".List") {
@@ -226,6 +240,8 @@ func runC18(c *an.Ctx) {
 		if nRet == 0 {
 			ok, why = false, "YieldBlock never returns"
 		}
+		c.Check(!notGiven.IsValid(), "C18.once", "(*Runtime).YieldBlock/context-given", f.Pos(), "the block runs without the given context only where that context is nil",
+			"YieldBlock can execute the block without installing the context it was given although that context is not known to be nil: a nil pointer, slice or map passed as context is a context ({{yield b() ctx}} switches '.' for it), so the block renders against the caller's '.'")
 		if ok {
 			c.OK("C18.once", "(*Runtime).YieldBlock/once", f.Pos(), "the block is executed exactly once on each of the %d normal exits; an unknown block panics", nRet)
 		} else {
